@@ -83,6 +83,12 @@ fn name_item(u: &mut Un, n: &NamedSpec) -> Vec<u8> {
 
 fn arg_items(u: &mut Un, n: &NamedSpec, tok: &str) -> Vec<Vec<u8>> {
     let name = name_item(u, n);
+    // `-xVALUE`: a short name with its value glued on
+    if !name.starts_with(b"--") && u.chance(70) {
+        let mut x = name;
+        x.extend_from_slice(tok.as_bytes());
+        return vec![x];
+    }
     if u.bool() {
         let mut x = name;
         x.push(b'=');
@@ -586,6 +592,12 @@ fn token_pos(items: &[Item], tok: &[u8]) -> Option<usize> {
             || (i.bytes.len() > tok.len()
                 && i.bytes.ends_with(tok)
                 && i.bytes[i.bytes.len() - tok.len() - 1] == b'=')
+            // `-xTOKEN`: one dash, one character, the token
+            || (i.bytes.starts_with(b"-")
+                && !i.bytes.starts_with(b"--")
+                && i.bytes.ends_with(tok)
+                && std::str::from_utf8(&i.bytes[1..i.bytes.len() - tok.len()])
+                    .map_or(false, |s| s.chars().count() == 1))
     })
 }
 
